@@ -1239,6 +1239,10 @@ static mi_segment_t* mi_segment_reclaim(mi_segment_t* segment, mi_heap_t* heap, 
         target_heap = heap;
         _mi_error_message(EFAULT, "page with tag %u cannot be reclaimed by a heap with the same tag (using heap tag %u instead)\n", page->heap_tag, heap->tag );
       }
+      if (target_heap->no_reclaim) {
+        // a heap that can be destroyed must not adopt blocks of other (terminated) threads as `mi_heap_destroy` would free them
+        target_heap = target_heap->tld->heap_backing;
+      }
       // associate the heap with this page, and allow heap thread delayed free again.
       mi_page_set_heap(page, target_heap);
       _mi_page_use_delayed_free(page, MI_USE_DELAYED_FREE, true); // override never (after heap is set)
